@@ -17,7 +17,7 @@ package main
 //	_, err := d.file.Seek(0, io.SeekStart) (also `=`)   the file is read again from its start: REQUIRED before EofAct.again
 //	continue | end of the list                          EofAct.again passNum
 //	if err != nil { return nil, err }                   I/O error, not modelled
-//	d.line = 0, d.<header accumulator> = …, d.scanner = …, d.decoder = …, d.reader.Reset(d.file), err = d.scanner.Err()
+//	d.line = 0, d.<header accumulator> = …, d.scanner / d.decoder / d.reader = F(d.file) (any constructor F), d.reader.Reset(d.file), err = d.scanner.Err()
 //	                                                    no effect on the counters
 //
 // with <cond> built from ==, !=, >=, && over d.config.Passes / d.config.Limit / d.passNum / d.ammoNum / 0.
@@ -109,6 +109,21 @@ func (x *c14hdrScanCtx) sentinelIf(s ast.Stmt) (string, string, bool) {
 	return x.cond(ifs.Cond), c14hdrSentinel(id.Name), true
 }
 
+// c14hdrIsRereader: `d.scanner = F(d.file)`, `d.decoder = F(d.file)`, `d.reader = F(d.file)` with F any function
+func c14hdrIsRereader(p *packages.Package, s ast.Stmt) bool {
+	as, ok := s.(*ast.AssignStmt)
+	if !ok || len(as.Lhs) != 1 || len(as.Rhs) != 1 {
+		return false
+	}
+	switch c14hdrSrcText(p, as.Lhs[0]) {
+	case "d.scanner", "d.decoder", "d.reader":
+	default:
+		return false
+	}
+	c, ok := as.Rhs[0].(*ast.CallExpr)
+	return ok && len(c.Args) == 1 && c14hdrSrcText(p, c.Args[0]) == "d.file"
+}
+
 // the body of an EofAct-valued definition from the statement list at end of file
 func (x *c14hdrScanCtx) eofBlock(list []ast.Stmt) string {
 	var b strings.Builder
@@ -120,6 +135,9 @@ func (x *c14hdrScanCtx) eofBlock(list []ast.Stmt) string {
 			continue
 		}
 		switch {
+		case c14hdrIsRereader(x.p, s):
+			// d.scanner / d.decoder / d.reader = <constructor>(d.file): a new reader over the (rewound) file, whatever the
+			// constructor is called (bufio.NewScanner, json.NewDecoder, a helper of the package such as newLineScanner)
 		case txt == "d.passNum++":
 			b.WriteString("  let passNum := passNum + 1\n")
 		case txt == "_, err := d.file.Seek(0, io.SeekStart)" || txt == "_, err = d.file.Seek(0, io.SeekStart)":
